@@ -549,13 +549,72 @@ def run_inline_faults(rep, fsdbh, stats):
                  for k in sorted({0, len(corpus), len(cases) - 1}) if k < len(cases)])
 
 
+def run_client_aborts(rep, fsdbh, stats):
+    """a source reader that fails, or a caller that cancels, after `at` bytes - through the inline AND the gRPC client, with
+    an old value, a fresh key, inside and outside a transaction: the call must fail, the key keeps what it had, GetKeys
+    does not list a fresh key, and nobody reads partial content (property oracle on the implementation's own answers)"""
+    from lib import histcheck as H
+    rng = C.rng_for(rep.seed, "c10-aborts")
+    n = 24 if rep.tier == "quick" else 300
+    cases = []
+    for i in range(n):
+        ln = rng.choice([1, 10, 2048, 2049, 32768, 40000, 100000, 1000000])
+        at = rng.choice([0, 1, 2047, 2048, 32767, ln // 2, ln - 1])
+        at = min(at, ln - 1) if ln > 1 else 0
+        how = rng.choice(["fail", "fail", "cancel"])
+        fresh = rng.random() < 0.4
+        intx = rng.random() < 0.3
+        ls = ["case ca%d roots=%d" % (i, rng.choice([1, 2])), "keytab 6b31 6b32"]
+        if not fresh:
+            ls.append("set 0 1 1 %d s" % rng.choice([0, 4, 3000]))
+        h = 0
+        if intx:
+            ls.append("begin " + rng.choice(["RC", "RR"]))
+            h = 1
+        ls.append("setabort %d 1 %d %d %d %s" % (h, 2 + i, ln, at, how))
+        ls += ["get %d 1 g" % h, "keys %d" % h]
+        if intx:
+            ls += ["commit 1"]
+        ls += ["get 0 1 g", "keys 0", "drain", "gc", "get 0 1 r", "end"]
+        cases.append("\n".join(ls))
+    bad = 0
+    for mode in ("inline", "grpc"):
+        outs = H.run_sharded(fsdbh, "hist", cases, extra=[mode], shards=8)
+        for c, o in zip(cases, outs):
+            ops = [l for l in c.split("\n") if not l.startswith("keytab")]
+            res = list(zip(ops, o))
+            old = next((r for l, r in res if l.startswith("set 0 1 1 ")), None)
+            want_get = "err NotFound" if old is None else None
+            ab = next(r for l, r in res if l.startswith("setabort"))
+            problems = []
+            if not ab.startswith("err"):
+                problems.append("the aborted write returned %s" % ab)
+            first_val = None
+            for l, r in res:
+                if l.startswith("get "):
+                    if old is None and r != "err NotFound":
+                        problems.append("%s -> %s although the key never had a value" % (l, r))
+                    if old is not None:
+                        first_val = first_val or r
+                        if not r.startswith("val ") or r != first_val:
+                            problems.append("%s -> %s (the value before the aborted write reads %s)" % (l, r, first_val))
+                if l.startswith("keys") and old is None and r.strip() != "keys":
+                    problems.append("%s -> %s lists a key that was never stored" % (l, r))
+            if problems:
+                bad += 1
+                if bad <= 3:
+                    rep.violation(dict(kind="oracle", what="an aborted write (%s client) left a trace: %s" % (mode, "; ".join(problems[:3])),
+                                       case=c, impl=o, mode=mode))
+    stats["client_abort_cases"] = dict(cases=len(cases), modes=["inline", "grpc"], violations=bad)
+
+
 def run(rep):
     proof_ok = C.proof_step(rep, "C10")
     C.ensure_driver()
     fsdbh = C.ensure_harness()
     stats = {}
     run_inline_faults(rep, fsdbh, stats)
-    # hook for the gRPC part (cancelled uploads, stream reader/writer errors): run_grpc_aborts(rep, fsdbh, stats)
+    run_client_aborts(rep, fsdbh, stats)
     stats["vm_compute_crosschecked_cases"] = vm_crosscheck(C.rng_for(rep.seed, "c10-vm"), 60 if rep.tier == "quick" else 400)
     rep.coverage.update(stats)
     rep.coverage.update(
